@@ -302,12 +302,151 @@ def check_C19(tier, t0):
     return core.finish("C19", tier, engine, total, info, t0, extra, assumptions, rule, reports=reports)
 
 
+# ---------------------------------------------------------------------------------------------
+# C20
+# ---------------------------------------------------------------------------------------------
+
+
+def _c20_chunk(args):
+    """Worker: generate items [start, stop), run them under the reference and every interpreter,
+    compare. -> Aggregate"""
+    seed, start, stop, real_every, interps = args
+    from . import engine_xinterp as ex
+
+    agg = core.Aggregate()
+    try:
+        gen = ex.Generator(seed)
+        items = [gen.item(i) for i in range(start, stop)]
+        wd = core.tmp_dir()
+        tag = "%d-%d" % (os.getpid(), start)
+        ref = ex.run_under(ex.REFERENCE, items, wd, tag + "-ref")
+        if len(ref.get("results", [])) != len(items):
+            agg.harness_errors.append("reference interpreter failed on items [%d,%d): %s" % (start, stop, ref.get("stderr", ref.get("runner_stderr", "?"))))
+            return agg
+        outs = {}
+        for v, py in interps:
+            outs[v] = ex.run_under(py, items, wd, tag + "-" + v)
+        for k, item in enumerate(items):
+            index = start + k
+            rr = ref["results"][k]
+            vio = []
+            n_exec = 0
+            for v, py in interps:
+                res = outs[v].get("results", [])
+                if len(res) != len(items):
+                    got = {"runner_exc": ["runner-died", (outs[v].get("stderr") or outs[v].get("runner_stderr") or "")[-300:]]}
+                else:
+                    got = res[k]
+                n_exec += 1
+                for x in ex.compare(v, item, got, rr):
+                    x["_trace"] = {"engine": "xinterp", "interpreter": v, "item": item, "item_index": index}
+                    vio.append(x)
+            counters = {"items": 1, "items." + item["k"]: 1, "executions": n_exec + 1}
+            if item["k"] == "cli" and real_every and index % real_every == 0:
+                rref = ex.run_real_cli(ex.REFERENCE, item)
+                for v, py in interps:
+                    got = ex.run_real_cli(py, item)
+                    counters["real_child_processes"] = counters.get("real_child_processes", 0) + 1
+                    for x in ex.compare_real(v, item, got, rref):
+                        x["_trace"] = {"engine": "xinterp", "interpreter": v, "item": item, "item_index": index, "real": True}
+                        vio.append(x)
+            dg = runner23.digest([item, rr])
+            agg.evaluations += n_exec + 1
+            d = int(dg[:16], 16)
+            agg.digests.add(d)
+            if not (item["k"] == "api" and item["ops"][0]["op"] == "import_all") and n_exec >= 1:
+                agg.nontrivial.add(d)
+            agg.counters.update(counters)
+            agg.steps += 1
+            for x in vio:
+                cur = agg.violations.get(x["sig"])
+                if cur is None:
+                    agg.violations[x["sig"]] = {"index": index, "trace": x["_trace"], "message": x["message"], "count": 1}
+                else:
+                    cur["count"] += 1
+            if k == 1 and len(agg.samples) < 2:
+                agg.samples.append({"item": dict((kk, vv) for kk, vv in item.items() if kk != "script"),
+                                    "script": (item.get("script") or [])[:12], "reference_result_digest": dg[:16]})
+    except Exception:
+        import traceback
+
+        agg.harness_errors.append("C20 chunk [%d,%d) failed: %s" % (start, stop, traceback.format_exc()))
+    return agg
+
+
+def check_C20(tier, t0):
+    import concurrent.futures
+    import multiprocessing
+    import time
+
+    from . import engine_xinterp as ex
+    from . import setup_check
+
+    seed = core.verif_seed()
+    n = scale(4000 if tier == "quick" else 300000)
+    bud = budget(240 if tier == "quick" else 2400)
+    found = setup_check.interpreters()
+    missing = [v for v in setup_check.INTERPRETERS if v not in dict(found)]
+    if not os.path.exists(ex.REFERENCE):
+        raise core.HarnessError("reference interpreter %s missing" % ex.REFERENCE)
+    n_real = 30 if tier == "quick" else 1500
+    real_every = max(1, int(n * 0.3) // n_real)  # ~30% of the items are CLI items
+    chunk = 125 if tier == "quick" else 1000
+    tasks = [(seed, a, min(n, a + chunk), real_every, found) for a in range(0, n, chunk)]
+    total = core.Aggregate()
+    info = {"planned_runs": n, "budget_cutoff": False, "workers": core.jobs()}
+    ctx = multiprocessing.get_context("fork")
+    with concurrent.futures.ProcessPoolExecutor(max_workers=core.jobs(), mp_context=ctx) as pool:
+        pending = list(tasks)
+        live = set()
+        while pending or live:
+            while pending and len(live) < core.jobs() * 2:
+                if time.time() - t0 > bud:
+                    info["budget_cutoff"] = True
+                    pending = []
+                    break
+                live.add(pool.submit(_c20_chunk, pending.pop(0)))
+            if not live:
+                break
+            done, live = concurrent.futures.wait(live, timeout=1200, return_when=concurrent.futures.FIRST_COMPLETED)
+            if not done:
+                raise core.HarnessError("no C20 chunk finished within 1200 s")
+            for f in done:
+                total.merge(f.result())
+    engine = ex.make_engine(seed)
+    c = total.counters
+    extra = {
+        "interpreters": {"reference": "/venv/bin/python (3.12.1)", "executed": [v for v, _ in found], "skipped_missing": missing},
+        "items": c.get("items", 0),
+        "items_by_kind": dict((k, v) for k, v in c.items() if k.startswith("items.")),
+        "real_child_processes": c.get("real_child_processes", 0),
+        "distinct_states": {"measure": "distinct (item, reference result) digests", "count": len(total.digests)},
+        "components": {"real": ["the whole cvss package under each interpreter", "argparse/json/decimal/input() of each interpreter",
+                                "real `python -m cvss.cvss_calculator` child processes (sampled)"],
+                       "stub": ["terminal and argv (runner23 SimStdin/SimStdout) for the in-process items", "the user (recorded answer scripts)"]},
+    }
+    rule = ("seeded items recorded under the reference interpreter -- API items (construct-and-observe valid / near-valid / invalid / "
+            "non-ASCII strings of every version, Red Hat notation, text extraction), builder sessions and CLI runs with their "
+            "recorded answer scripts and EOF faults, plus one import/compile record -- replayed by runner23 under each of the 9 "
+            "interpreters and diffed against /venv's 3.12; a sampled subset of CLI items also as real child processes. "
+            "evaluations = item executions (all interpreters + reference). Non-trivial = distinct item digest executed on >= 2 "
+            "interpreters whose reference result is not the import/compile record.")
+    assumptions = [
+        "the interpreters are those under /root/.pyenv/versions; a missing non-reference interpreter is reported as skipped, not as a violation",
+        "other interpreters are exercised single-threaded on sampled inputs (line events are not comparable across interpreter versions)",
+        "`!=` between objects and hash() values are not compared (not in the statement's list); text types (py2 str/unicode) are normalised",
+        "in-process items pass argv/stdin to Python 2 as UTF-8 bytes, which is what the OS hands a 2.7 process",
+    ]
+    return core.finish("C20", tier, engine, total, info, t0, extra, assumptions, rule, shrink_budget=60.0, max_shrunk=8)
+
+
 CHECKS = {
     "C08": check_C08,
     "C16": check_C16,
     "C17": check_C17,
     "C18": check_C18,
     "C19": check_C19,
+    "C20": check_C20,
 }
 
 
@@ -334,6 +473,10 @@ def engine_for_trace(prop, trace):
         from . import engine_cli
 
         return engine_cli.make_engine(seed)
+    if name == "xinterp":
+        from . import engine_xinterp
+
+        return engine_xinterp.make_engine(seed)
     raise core.HarnessError("no engine %r" % (name,))
 
 
@@ -356,11 +499,26 @@ def engines_of(prop):
         from . import engine_state
 
         return [(engine_state.make_engine, {"seed": seed})]
+    if prop == "C20":
+        return [(_C20GenDigest, {"seed": seed})]
     if prop == "C17":
         from . import engine_cli
 
         return [(engine_cli.make_engine, {"seed": seed, "real_every": 0})]
     raise core.HarnessError("no engine for %r" % (prop,))
+
+
+class _C20GenDigest(object):
+    """Determinism self-test adapter: the digest of the i-th generated C20 item (what is executed
+    under the interpreters is a pure function of that item)."""
+
+    def __init__(self, seed=0):
+        from . import engine_xinterp
+
+        self.gen = engine_xinterp.Generator(seed)
+
+    def run_one(self, i):
+        return {"digest": runner23.digest(self.gen.item(i)), "violations": []}
 
 
 def print_digests(prop, n, first):
